@@ -1,3 +1,18 @@
+/- C07: decoding consumes exactly one message's bytes; back-to-back messages stream. -/
 import FinProto.Obl.Side
+import FinProto.Props.RoundTrip
 namespace FinProto.Obl
+open FinProto
+set_option linter.defProp false
+
+theorem C07_mirror : Gen.env.mirrorOK = true := gen_mirrorOK
+/-- a successful decode reads a prefix and leaves the rest untouched, whatever follows -/
+theorem C07_prefix : ∀ f ty, Obl (decTy Gen.env f ty) := obl_decTy Gen.env
+/-- `∀ rest`: the encoded message followed by arbitrary further bytes decodes to the message and leaves `rest` -/
+theorem C07_repo : ∀ f ty v pre v' out, canonTy Gen.env f ty v = true → encTy Gen.env f ty v pre = .ok (v', out) →
+    ∃ bs, out = pre ++ bs ∧ ∀ rest, decTy Gen.env f ty (bs ++ rest) = .ok (v', rest) :=
+  roundtrip Gen.env gen_mirrorOK gen_keysOK gen_widthsOK
+/-- n messages of mixed types encoded one after another are recovered, in order, by n successive decodes, leaving [] -/
+def C07_stream := stream Gen.env gen_mirrorOK gen_keysOK gen_widthsOK
+
 end FinProto.Obl
